@@ -75,6 +75,21 @@ prop('C19', 'proof',
      'Threads, lock order across the three global tables, handle lifetime histories, agreement with the Rust API over real archives, every other SFile* function: NOT under contract (Kani has no threads; the global LazyLock<Mutex<HashMap>> tables exhaust CBMC). Block units verify the extracted statements only.',
      ['lib.rs: all SFile* functions except the two extracted blocks; FILES/ARCHIVES/FINDS tables; SFileCloseArchive invalidation'])
 
+
+prop('C14', 'proof',
+     'Verus contracts on extracted offset-table builders; Kani complete harness on the MHDR offset/flag calculators',
+     'Partial: the offset-table arithmetic of the ADT serializer. Proved unbounded (Verus): create_mmid_chunk / create_mwid_chunk entry i is the byte offset of the i-th NUL-terminated filename (no overflow when the payload fits 32 bits); calculate_mcin_entries yields exactly 256 entries, the recorded MCNK chunks first with their (offset, size), zero padding after. Kani complete (all positions below 4 GiB): every MHDR entry computed by calculate_mhdr_offsets is the distance from the MHDR payload to the recorded position of the named chunk (0 when absent) and calculate_mhdr_flags sets bit 0/1 exactly when MFBO/MH2O are present.',
+     'That serialize_to_writer records the true chunk positions, the chunk framing itself, MCNK sub-chunk offsets, MH2O, parsing (binrw-generated) and parse->serialise stability are NOT under contract. McinEntry::default() is modelled as all-zero (derive(Default)); String::len is an assumed specification.',
+     ['builder/serializer.rs: serialize_to_writer, write_mcnk_chunk, write_minimal_mcnk_chunk, write_mh2o_chunk, write_chunk', 'builder/adt_builder.rs, built_adt.rs, validation.rs',
+      'api.rs, root_parser.rs, split_parser.rs, chunk_discovery.rs, chunks/* (binrw readers/writers)', 'version.rs'])
+
+prop('C15', 'proof',
+     'Verus contracts on extracted WmoWriter chunk writers (framing, string-table and count laws); Kani complete harness on the chunk header codec',
+     'Partial: the derived data of the WMO root writer. Proved unbounded (Verus, on extracted code with W: Write instantiated by an in-memory sink): write_textures / write_group_names emit a chunk whose size field equals the payload written and whose payload is the names in order, each NUL-terminated; write_group_info emits 32 bytes per group and the name-offset word of entry i is the byte offset of group i\'s name in the MOGN payload (F21 repaired); write_materials declares exactly the 64 bytes per material it writes (F20 repaired); the MOHD count words are the lengths of the lists they describe, in the order the parser reads them (E11 block of write_header); write_indices frames 2 bytes per index. Kani complete: ChunkHeader::write emits the identifier reversed and the size little-endian, ChunkHeader::read inverts it for all 2^64 headers and rejects short input.',
+     'Known findings (recorded, not repaired; confirmed natively on every run): WmoGroupParser::parse_group is a stub that rejects every input, so no group survives write->parse (F22); parse_wmo rejects the 60-byte MOHD that write_root emits (F23); the root bounding box is not read back (F24); doodad name offsets are rewritten (F25); the skybox is lost for WotLK..MoP targets (F26). Not under contract: every other chunk writer (portals, lights, doodads, visibility, group sub-chunks, liquid, BSP), both parsers, the converter. String::len / as_bytes and the bitflags bits() accessors are assumed specifications; f32 bytes are uninterpreted.',
+     ['writer.rs: write_root, write_group, write_version, write_header (flags, colour, bounds), write_skybox, write_portals, write_portal_references, write_visible_block_lists, write_lights, write_doodad_definitions, write_doodad_sets, write_vertices, write_normals, write_texture_coords, write_vertex_colors, write_batches, write_bsp_nodes, write_liquid, write_doodad_refs',
+      'parser.rs (all), group_parser.rs (all), root_parser.rs, api.rs: parse_wmo', 'converter.rs, editor.rs, version.rs'])
+
 prop('C16', 'proof',
      'Kani complete harnesses on the real header codec, locator bounds and mip arithmetic; Kani bounded harnesses on E11 blocks of the alpha bit packing',
      'Partial. Kani complete (full field domains): parse_header(encode_header(h)) == h for BLP0/BLP1/BLP2 (every content kind, defined alpha depth, compression, alpha type, flag value, dimension <= 65535, locator table) and the encoded size equals the header size of the version; get_bounded_slice returns exactly [offset, offset+size) and only when it lies inside the file, for all u32 offset/size (F3 repaired); mipmap_size(i) == (max(w>>i,1), max(h>>i,1)) for all u32 w,h and every level, pixel count is the product and never overflows (F14 repaired); parse_header is total on arbitrary bytes. Kani bounded: the 1-bit and 4-bit alpha packing loops (E11 blocks of convert/raw1.rs) produce ceil(n*bits/8) bytes with pixel i at the bit position the reader unpacks, quantised to the declared depth (<= 10 / <= 6 pixels, partial last byte included).',
